@@ -57,8 +57,8 @@ def install_year_contracts(ex, years):
     ex.contracts[N["cs_year"]] = c_year
     ex.contracts[N["YearShift"]] = c_yearshift
 
-def ext_zone(ex, st, N, T):
-    z = tz.build_zone(ex, st, N, T)
+def ext_zone(ex, st, N, T, spacing=None):
+    z = tz.build_zone(ex, st, N, T, spacing=spacing)
     ex.store_raw(st, Ptr(z.obj.obj, 160), 1, 1)                 # extended_ = true
     return z
 
@@ -67,7 +67,7 @@ def job_breaktime_ext(N, T):
     years = {}
     install_year_contracts(ex, years)
     def h(ex, st):
-        z = ext_zone(ex, st, N, T)
+        z = ext_zone(ex, st, N, T, spacing=False)
         _ext_wf(ex, st, z, N)
         t = ex.input("t")
         last = z.unix[N - 1]
